@@ -188,8 +188,9 @@ PROPS = {
                      "the allocation model covers Hstartwrite of new elements, appending Hwrite on the last element of the file, in-place Hwrite, Hsync and close/reopen; every other allocation goes through HPgetdiskblock too but is not replayed on the model"],
     ),
     "C15": dict(
-        lean_props=["H4.Props.C15", "H4.Props.C15Fn", "H4.Props.C15Ndg"],
+        lean_props=["H4.Props.C15", "H4.Props.C15Fn", "H4.Props.C15Ndg", "H4.Props.C15RecFn"],
         engines=[
+            E("rec", "e_rec.c", model="rec", quick=dict(cases=600, chunk=60), thorough=dict(cases=12000, seeds=4, chunk=400)),
             # one binary: cross-interface cases (T xapi ...: record codecs, character attributes of old-style data sets) + the real DFCIrle/DFCIunrle (T dfrle ...)
             E("xapi", "e_xapi.c", model="xapi", quick=dict(cases=676, chunk=34), thorough=dict(cases=8840, seeds=4, chunk=110)),
         ],
@@ -210,8 +211,11 @@ PROPS = {
                      "SD presents labels, descriptions and data strings as C strings (strlen): texts with an embedded NUL are expected up to the NUL (generated texts have none; STAT ndg_text_nul counts legacy ones)"],
     ),
     "C02": dict(
-        lean_props=["H4.Props.C02", "H4.Props.C08Fn3", "H4.Props.C07Fn3"],
+        lean_props=["H4.Props.C02", "H4.Props.C08Fn3", "H4.Props.C07Fn3", "H4.Props.C02HdrFn"],
         engines=[
+            # the record codecs called directly (HCPencode_header / HCPdecode_header on random parameter sets and random / truncated buffers; the DFTAG_ID writer block of
+            # GRIupdatemeta and the reader Decode_diminfo), replayed on the hand-written codecs and on the texts translated from hcomp.c / mfgr.c (GEN= suffix)
+            E("rec", "e_rec.c", model="rec", quick=dict(cases=600, chunk=60), thorough=dict(cases=12000, seeds=4, chunk=400)),
             # cases 0..NWORKLOADS-1: the 32 workloads of workloads.h (prep file and file after the session); NWORKLOADS: odd-ndds Hnumber regression probe; above: random histories
             # (one in four SD-heavy: several unlimited data sets of different record counts that grow in different sessions).
             # model=None: the engine itself runs `h4model read` (env H4MODEL) on every file it closes and compares the dumps
@@ -247,8 +251,9 @@ PROPS = {
                      "hdfimport: 1-4 input files per run in every order, ranks 2 and 3, dimensions 2..6; TEXT (-t FP32/FP64/INT32/INT16/INT8, -n, no option), FP32 / FP64 (with and without -n) / IN32 / IN16 / IN08 binary and HDF (one FLOAT32 SDS with float32 scales) input; -f, -r with -e / -i / -p / -m in every order; images only for inputs that give FLOAT32 (other types: known finding hdfimport-raster-needs-float32), with strictly increasing scales and the data inside the header range; file names below 32 characters except in the runs that probe the name fields (known finding hdfimport-file-name-buffer); pixel values are compared with the formula only where no expansion takes place, otherwise with the images of the same file imported alone"],
     ),
     "C05": dict(
-        lean_props=["H4.Props.C05", "H4.Props.C05Bits", "H4.Props.C05NBit", "H4.Props.C05Skp", "H4.Props.C05Fn", "H4.Props.C05SkpFn", "H4.Props.C05Rle", "H4.Props.C05RleSess", "H4.Props.C05NBitFn"],
+        lean_props=["H4.Props.C05", "H4.Props.C05Bits", "H4.Props.C05NBit", "H4.Props.C05Skp", "H4.Props.C05Fn", "H4.Props.C05SkpFn", "H4.Props.C05Rle", "H4.Props.C05RleSess", "H4.Props.C05NBitFn", "H4.Props.C02HdrFn"],
         engines=[
+            E("rec", "e_rec.c", model="rec", quick=dict(cases=600, chunk=60), thorough=dict(cases=12000, seeds=4, chunk=400)),
             E("bits", "e_bits.c", model="bits", quick=dict(cases=2500, args=[700]), thorough=dict(cases=30000, seeds=8, args=[3000], chunk=200)),
             E("comp", "e_comp.c", model="rle", quick=dict(cases=1500, args=[2048]), thorough=dict(cases=20000, seeds=8, args=[66000], chunk=200)),
         ],
